@@ -12,7 +12,7 @@ from pyvc.unit import LemmaUnit
 from contracts.singlelane import SLInit, SLPut, SLGet, SLRelyGuarantee, ASSUMPTIONS as SL_ASSUMPTIONS
 from contracts.fifo import FeedUnit, FeedUnitNoPre, ConsumerUnit, ConsumerUnitNoPre
 from contracts.buffer import RunWorker, RunWorkerNoExtern, BufIter, BufStart
-from contracts.c01 import ParmapperInit, ParmapperInitDefault, ParmapperIter, ParmapperIterProcess, WorkUnit, SubmitUnit, SubmitUnitProcess, TRUSTED as C01_TRUSTED
+from contracts.c01 import ParmapperInit, ParmapperInitDefault, ParmapperIter, ParmapperIterProcess, WorkUnit, SubmitUnit, SubmitUnitProcess, EXECUTOR_FRAME, TRUSTED as C01_TRUSTED
 
 
 class C08Lemma(LemmaUnit):
@@ -31,7 +31,7 @@ class C08Lemma(LemmaUnit):
 
 
 UNITS = [SLInit, SLPut, SLGet, SLRelyGuarantee, FeedUnit, FeedUnitNoPre, ConsumerUnit, ConsumerUnitNoPre, RunWorker, RunWorkerNoExtern, BufIter, BufStart,
-         ParmapperInit, ParmapperInitDefault, ParmapperIter, ParmapperIterProcess, WorkUnit, SubmitUnit, SubmitUnitProcess, C08Lemma]
+         ParmapperInit, ParmapperInitDefault, ParmapperIter, ParmapperIterProcess, WorkUnit, SubmitUnit, SubmitUnitProcess] + list(EXECUTOR_FRAME) + [C08Lemma]
 ASSUMPTIONS = tuple(SL_ASSUMPTIONS) + ('an executor built with max_workers=n runs at most n submitted calls at a time (trusted stdlib contract)',
                                        'the three counter invariants hold at every instant of their role because each is re-established before the role\'s next action on that counter (loop invariants + per-put / per-yield obligations)')
 TRUSTED = C01_TRUSTED
